@@ -549,7 +549,12 @@ Definition tck_step (s : st) (t : tid) (k : trec) (b : bool) : option st :=
 Definition con_step (s : st) (t : tid) (pc : kpc) (b : bool) : option st :=
   let go pc' s' := Some (thr_set t (TCon pc') s') in
   match pc with
-  | KCheck => if is_closed (status s) || authed s then Some (thr_del t s) else go KAuth s
+  (* connectCmd's first look: closed -> DisconnectConnectionClosed (nothing to do); already authenticated
+     (a second connect command) -> DisconnectBadRequest, the dispatcher closes the connection.  Between this
+     check and the registration the command calls the OnConnecting handler (gate GkConnecting). *)
+  | KCheck => if is_closed (status s) then Some (thr_del t s)
+              else if authed s then Some (thr_del t (spawn_int new_close s))
+              else go KAuth s
   | KAuth =>
       if is_closed (status s) then Some (thr_del t s)
       else go KShut (set_reg true (set_authed true (if reg s then s else set_gconn (gconn s + 1)%Z s)))
@@ -622,7 +627,8 @@ Definition spawn (s : st) (o : op) : option st :=
   | OUnsubSrv c => if reg s then Some (thr_set t (TUns (new_u c UStart)) s1) else None
   | OClose => Some (thr_set t new_close s1)
   | OTick => if authed s then Some (thr_set t (TTck (mkT TCas [] [] [])) s1) else None
-  | OConnect => if kstarted s then None else Some (thr_set t (TCon KCheck) (set_kstarted true s1))
+  (* any number of connect commands may be in flight (commands processed off the read loop) *)
+  | OConnect => Some (thr_set t (TCon KCheck) (set_kstarted true s1))
   (* Node.Shutdown: flag, then hub.shutdown closes every registered connection (snapshot) *)
   | OShutdown => Some (set_shut true (if reg s then spawn_int new_close s1 else s1))
   end.
@@ -697,7 +703,7 @@ Definition delivered (s : st) (c : ch) : N := match hub s c with Some _ => 1 | N
 
 (* ---- natural gates: which driver-replaceable call the thread's next action goes through ---- *)
 Inductive gk := GkSubH | GkBrokerSub | GkPresAdd | GkPresRem | GkJoin | GkLeave | GkUnsubH
-              | GkTransport | GkDiscH | GkAliveH | GkConnH | GkBrokerUnsub.
+              | GkTransport | GkDiscH | GkAliveH | GkConnH | GkBrokerUnsub | GkConnecting.
 
 Definition u_gate (s : st) (u : urec) : option gk :=
   match u_pc u with
@@ -734,6 +740,6 @@ Definition gate_of (s : st) (th : thread) : option gk :=
       | TCompRem => match t_rem k with _ :: _ => Some GkPresRem | [] => None end
       | _ => None
       end
-  | TCon pc => match pc with KHandler => Some GkConnH | _ => None end
+  | TCon pc => match pc with KHandler => Some GkConnH | KAuth => Some GkConnecting | _ => None end
   | TJob _ => Some GkBrokerUnsub
   end.
